@@ -246,6 +246,83 @@ def _interrupt_points(item):
     return ('ok' if not bad else 'bad', bad[:5], total, len(ks))
 
 
+def _main_interrupts(item):
+    """the user's path: Droop.main(options) interrupted inside Election.count(); whatever renderings were asked for (report,
+    dump, JSON, alone or together) must come out, each marked as interrupted"""
+    p, o, ks_seed, maxpoints = item
+    import importlib.util
+    spec = importlib.util.spec_from_file_location('DroopMain_%d' % os.getpid(), os.path.join(common.REPO, 'Droop.py'))
+    Droop = importlib.util.module_from_spec(spec)
+    with contextlib.redirect_stdout(io.StringIO()):
+        spec.loader.exec_module(Droop)
+    d = os.path.join(common.WORK, 'main-%d' % os.getpid())
+    os.makedirs(d, exist_ok=True)
+    path = os.path.join(d, 'e.blt')
+    with open(path, 'w') as f:
+        f.write(gen.blt(p))
+    droopdir = os.path.join(common.REPO, 'droop')
+    electionpy = os.path.join(droopdir, 'election.py')
+
+    def run_to(k, sel):
+        opts = dict(o); opts['path'] = path; opts.update(sel)
+        cnt = [0]; inside = [False]
+        def tracer(frame, event, arg):
+            fn = frame.f_code.co_filename
+            if not fn.startswith(droopdir):
+                return tracer if fn.endswith('Droop.py') else None
+            if frame.f_code.co_name == 'count' and fn == electionpy:
+                if event == 'call':
+                    inside[0] = True
+                elif event == 'return':
+                    inside[0] = False
+            if event == 'line' and inside[0]:
+                cnt[0] += 1
+                if cnt[0] == k:
+                    inside[0] = False
+                    raise KeyboardInterrupt
+            return tracer
+        sys.settrace(tracer)
+        try:
+            with contextlib.redirect_stdout(io.StringIO()):
+                out = Droop.main(opts)
+            return out, None, cnt[0]
+        except KeyboardInterrupt:
+            return None, 'KeyboardInterrupt escaped main', cnt[0]
+        except Exception as e:
+            return None, '%s: %s' % (type(e).__name__, str(e)[:60]), cnt[0]
+        finally:
+            sys.settrace(None)
+
+    SELS = [dict(), dict(report=False, dump=True), dict(report=False, json=True), dict(dump=True, json=True)]
+    out, err, total = run_to(-1, {})
+    if out is None:
+        return ('skip', err, 0, 0)
+    rng = random.Random(ks_seed)
+    ks = list(range(1, total + 1))
+    if len(ks) > maxpoints:
+        ks = ks[:maxpoints // 3] + sorted(rng.sample(ks[maxpoints // 3:], maxpoints - maxpoints // 3))
+    bad = []
+    for k in ks:
+        sel = rng.choice(SELS)
+        out, err, _ = run_to(k, sel)
+        if err:
+            bad.append((k, sel, err))
+        else:
+            want_report = sel.get('report', True) is not False
+            if want_report and 'terminated prematurely by user interrupt' not in out:
+                bad.append((k, sel, 'report not marked as interrupted'))
+            if (sel.get('dump') or sel.get('json')) and 'count interrupted' not in out:
+                bad.append((k, sel, 'dump/JSON not marked as interrupted'))
+            if sel.get('json') and not want_report and not sel.get('dump'):
+                try:
+                    json.loads(out)
+                except Exception as e:
+                    bad.append((k, sel, 'JSON unreadable: %s' % type(e).__name__))
+        if len(bad) > 5:
+            break
+    return ('ok' if not bad else 'bad', bad[:5], total, len(ks))
+
+
 def header_fill_order(rule):
     """the keys ElectionRecord._fill assigns, in order, and whether `filled` is set only afterwards"""
     from droop.profile import ElectionProfile
@@ -299,12 +376,29 @@ def C19(run):
                 k, name, why = r[1][0]
                 run.violation(dict(kind='implementation', what='interrupted count: %s(True) -> %s' % (name, why), interrupt_at_line_event=k,
                                    of_line_events=r[2], blt=gen.blt(p), options=o, all=r[1]))
+    # the command-line path
+    mitems = [(p, o, rng.randrange(10 ** 9), budget(run, 60, 150)) for (p, o, _, _) in items[:budget(run, 24, 400)]]
+    mres = common.pmap(_main_interrupts, mitems, limit=600.0, chunksize=1)
+    mpts = 0
+    for (p, o, _, _), r in zip(mitems, mres):
+        if r[0] == 'TIMEOUT':
+            stats['main:timeout'] += 1; continue
+        stats['main:' + r[0]] += 1
+        mpts += r[3] if len(r) > 3 else 0
+        if r[0] == 'bad':
+            nb += 1
+            if nb <= 3:
+                k, sel, why = r[1][0]
+                run.violation(dict(kind='implementation', what='Droop.main interrupted during the count: %s' % why, renderings_asked_for=sel or 'report',
+                                   interrupt_at_line_event=k, of_line_events=r[2], blt=gen.blt(p), options=o, all=[list(map(str, b)) for b in r[1]]))
+    npts += mpts
     if broken and not run.violations:
         run.violation(dict(kind='theorem', broken=broken), 'no-failing-input-found')
     cov = run.coverage
     cov['evaluations'] = npts
     cov['distinct_nontrivial'] = npts
     cov['elections'] = len(items)
+    cov['command_line_interrupt_points'] = mpts
     cov['rule'] = ('interruption point = k-th executed line of package code inside Election.count() (sys.settrace raises KeyboardInterrupt there); the first '
                    'third of each election\'s points is enumerated, the rest sampled; after each interrupt report(True), dump(True), json(True) are rendered '
                    'and the action list is compared with the uninterrupted record; every point is non-trivial (a distinct (election, k))')
